@@ -27,9 +27,15 @@ pub enum Cycle {
     CmdFireThenClear,
     CmdDropHandleThenFire,
     CmdClearBeforeFirstPoll,
+    /// a legacy timer is cleared while its request is pending, and then the whole core is dropped
+    /// (the timer's future goes away without having been polled again): the clear must go with it
+    LegacyClearThenDropCore,
+    /// `notify_after_async`: the future is created, cleared and discarded without ever being awaited
+    LegacyAsyncClearedUnawaited,
 }
 
 pub enum Event {
+    LegacyAsyncUnawaited,
     Legacy(bool),
     LegacyStartAndClear,
     LegacyClear,
@@ -68,6 +74,12 @@ impl crux_core::App for App {
             Event::LegacyStartAndClear => {
                 let id = caps.time.notify_after(Duration::from_secs(1), |_| Event::Out);
                 caps.time.clear(id);
+                Command::done()
+            }
+            Event::LegacyAsyncUnawaited => {
+                let (future, id) = caps.time.notify_after_async(Duration::from_secs(1));
+                caps.time.clear(id);
+                drop(future);
                 Command::done()
             }
             Event::LegacyClear => {
@@ -123,7 +135,7 @@ fn answer(core: &Core<App>, mut req: Request<TimeRequest>) -> Result<Vec<Request
 
 /// Err((signature, explanation)); Ok(number of cycles run)
 pub fn run(cycles: &[Cycle]) -> Result<usize, (String, String)> {
-    let core: Core<App> = Core::new();
+    let mut core: Core<App> = Core::new();
     let base = crux_time::verif_cleared_timer_ids_len();
     let fail = |sig: &str, why: String| Err((sig.to_string(), why));
     let mut outcomes = 0u64;
@@ -188,6 +200,20 @@ pub fn run(cycles: &[Cycle]) -> Result<usize, (String, String)> {
                 core.process_event(Event::CmdDropHandle);
                 answer(&core, r).map_err(e)?;
                 expect_outcome = true;
+            }
+            Cycle::LegacyClearThenDropCore => {
+                let _unanswered = notify_only(time_reqs(core.process_event(Event::Legacy(k % 2 == 0))))?;
+                core.process_event(Event::LegacyClear);
+                core = Core::new();
+                outcomes = 0;
+                expect_outcome = false;
+            }
+            Cycle::LegacyAsyncClearedUnawaited => {
+                let v: Vec<_> = time_reqs(core.process_event(Event::LegacyAsyncUnawaited)).into_iter().filter(|r| !matches!(r.operation, TimeRequest::Clear { .. })).collect();
+                if !v.is_empty() {
+                    return fail("error", format!("cycle {k}: a timer future that was never awaited sent {} requests", v.len()));
+                }
+                expect_outcome = false;
             }
             Cycle::CmdClearBeforeFirstPoll => {
                 let v = time_reqs(core.process_event(Event::CmdStartAndClear));
